@@ -1,0 +1,22 @@
+//go:build verif
+
+package gen
+
+import (
+	"github.com/inspirer/textmapper/grammar"
+	"github.com/inspirer/textmapper/status"
+)
+
+type verifOrigin struct{}
+
+func (verifOrigin) SourceRange() status.SourceRange { return status.SourceRange{} }
+
+// VerifGoParserAction exposes goParserAction (rewriting of $-references inside Go semantic actions).
+func VerifGoParserAction(s string, args *grammar.ActionVars) (string, error) {
+	return goParserAction(s, args, verifOrigin{})
+}
+
+// VerifParseMeta exposes parseMeta. The input must be non-empty.
+func VerifParseMeta(s string) (d int, id, prop string, err error) {
+	return parseMeta(s)
+}
